@@ -251,7 +251,7 @@ func genCtxFields(r *Repo) (string, error) {
 
 	// ---- the struct
 	var fields []string
-	for _, d := range r.Files["context.go"].Decls {
+	for _, d := range r.File("context.go").Decls {
 		gd, ok := d.(*ast.GenDecl)
 		if !ok || gd.Tok != token.TYPE {
 			continue
@@ -273,6 +273,7 @@ func genCtxFields(r *Repo) (string, error) {
 	if len(fields) == 0 {
 		return "", fmt.Errorf("struct cTx not found")
 	}
+	sort.Strings(fields) // the order of the fields in the struct is no fact
 	allCtxFields := fields
 	fmt.Fprintf(&sb, "def ctxFields : List String := %s\n", leanStrList(fields))
 
